@@ -693,7 +693,7 @@ pub fn spec() -> Spec<Case> {
         rule: "twin sandboxes (A: real git, B: the git-ai wrapper) built identically - three files, a bare remote, configured aliases (plain, recursive, shell), a generated subset of user hooks (pre-commit, commit-msg, post-commit, post-checkout, post-merge, pre-rebase, post-rewrite; pre-commit optionally failing every other time) that log their arguments outside the repository - then 5-25 steps: git command lines drawn from (a) a table of ~170 templates (porcelain, plumbing, global options, aliases, remote operations, and deliberately invalid invocations), (b) a table of 35 commands that read standard input (--pathspec-from-file=- with and without NUL separation for reset/add/commit/checkout/restore/stash/rm, commit -F -, hash-object --stdin, update-ref --stdin, cat-file --batch, notes/tag -F -, ...; the same bytes are fed to both twins), (c) a flag grammar for every command git-ai hooks (commit, reset, checkout, switch, restore, stash push/pop/apply/..., merge, rebase, cherry-pick, revert, pull, push, fetch, add, rm, mv, clean, worktree: random subsets of 4-28 real flags x revision targets x pathspec tails) run in a generated invocation context (repository root or sub-directory; GIT_INDEX_FILE, GIT_DIR, GIT_WORK_TREE, GIT_CONFIG_COUNT, GIT_LITERAL_PATHSPECS, GIT_REFLOG_ACTION ... in the environment), and human/agent file edits applied to both trees (agent checkpoints in B only). After every command: exit status equal, stdout byte-equal (one notes-fetch line after clone removed), and the state digest equal: HEAD, refs outside refs/notes/ai*, index, status v2, every working-tree file, stash, in-progress-operation files, the user hooks' log, remote refs, local config, hook directory, clone heads, the alternate index when one was used, linked worktrees. non-trivial = a hooked command ran with agent work pending, or the command failed in git, or used a global option/alias; distinct by case hash".into(),
         cases_quick: 252,
         cases_thorough: 3000,
-        shrink_iters: 60,
+        shrink_iters: 30,
         workers: 14,
         strategy: strategy().sboxed(),
         run,
